@@ -10,6 +10,15 @@
 //!   * `#[emit::span(.., ok_lvl / err_lvl / err: .., ..)]` on sync and async fns returning `Result` (four more static call
 //!     sites) whose bodies end `Ok(())`, with `fail()?` or with `return Err(..)` as scripted: the Ok arm completes through
 //!     `__private_complete_span_ok`, the Err arm through `__private_complete_span_err`, both inside the frame;
+//!   * the MANUAL span API (kinds `manual`, `amanual`, `manual2`): `SpanCtxt::current(ctxt)`, `new_child(rng)` (or
+//!     `new_root(rng)` when nothing is current; `SpanCtxt::empty()` for a span the case marks rejected), `SpanCtxt::push`
+//!     for the frame, the body inside `Frame::call` / `Frame::in_future`, and a `Span::new` event emitted through
+//!     `Runtime::emit` inside the frame when the body ends (also by unwinding); `manual2` assembles the child by hand:
+//!     `TraceId::random`, `Rng::fill` + `SpanId::new`, `TraceId::new`, `SpanCtxt::new`;
+//!   * the runtime's rng held as `Some(rng)`, `None`, `Box`, `Arc`, `AssertInternal`, `Box<dyn ErasedRng + Send + Sync>`
+//!     (variants `rng*`); the scripted rng CHANGES a reading once it was drawn, so a holder drawing twice shows;
+//!   * variant `tp`: the ctxt is `emit_traceparent::TraceparentCtxt<ThreadLocalCtxt>` (cases restricted to the class
+//!     on which it shows the same ids, see `tp_class`);
 //!   * events through `emit::emit!`, observations through `SpanCtxt::current`;
 //!   * bodies carried to another actor thread inside `Frame::current(ctxt).in_fn`, async subtrees wrapped in
 //!     `Frame::current(ctxt).in_future` and polled by hand, the k-th poll on a scripted thread; `(yield)` suspends;
@@ -67,6 +76,9 @@ type DynFrame = <DynCtxt as Ctxt>::Frame;
 /// a typed private runtime `Runtime::new().with_emitter(recording).with_filter(scripted).with_ctxt($ctor).with_rng(scripted)`
 macro_rules! typed_variant {
     ($marker:ident, $ctxt:ty, $frame:ty, $ctor:expr) => {
+        typed_variant!($marker, $ctxt, $frame, $ctor, ScriptRng, ScriptRng);
+    };
+    ($marker:ident, $ctxt:ty, $frame:ty, $ctor:expr, $rng:ty, $rng_ctor:expr) => {
         pub struct $marker;
         impl Parts for $marker {
             type E = emit::emitter::FromFn<EmitFn>;
@@ -74,14 +86,14 @@ macro_rules! typed_variant {
             type Fr = $frame;
             type C = $ctxt;
             type K = emit::Empty;
-            type G = ScriptRng;
+            type G = $rng;
             fn rt() -> &'static RtOf<Self> {
                 static RT: LazyLock<RtOf<$marker>> = LazyLock::new(|| {
                     emit::runtime::Runtime::new()
                         .with_emitter(emit::emitter::from_fn(record as EmitFn))
                         .with_filter(emit::filter::from_fn(verdict as FilterFn))
                         .with_ctxt($ctor)
-                        .with_rng(ScriptRng)
+                        .with_rng($rng_ctor)
                 });
                 LazyLock::force(&RT)
             }
@@ -102,6 +114,22 @@ typed_variant!(VOption, Option<ThreadLocalCtxt>, Option<TlcFrame>, Some(ThreadLo
 typed_variant!(VBoxDyn, Box<DynCtxt>, DynFrame, Box::new(ThreadLocalCtxt::new()) as Box<DynCtxt>);
 typed_variant!(VArcDyn, Arc<DynCtxt>, DynFrame, Arc::new(ThreadLocalCtxt::new()) as Arc<DynCtxt>);
 typed_variant!(VAssertDyn, Arc<DynCtxt>, DynFrame, Arc::new(emit::runtime::AssertInternal(ThreadLocalCtxt::new())) as Arc<DynCtxt>);
+
+// how the runtime holds its rng
+type DynRng = dyn emit::rng::ErasedRng + Send + Sync;
+typed_variant!(VRngSome, ThreadLocalCtxt, TlcFrame, ThreadLocalCtxt::new(), Option<ScriptRng>, Some(ScriptRng));
+typed_variant!(VRngNone, ThreadLocalCtxt, TlcFrame, ThreadLocalCtxt::new(), Option<ScriptRng>, None);
+typed_variant!(VRngBox, ThreadLocalCtxt, TlcFrame, ThreadLocalCtxt::new(), Box<ScriptRng>, Box::new(ScriptRng));
+typed_variant!(VRngArc, ThreadLocalCtxt, TlcFrame, ThreadLocalCtxt::new(), Arc<ScriptRng>, Arc::new(ScriptRng));
+typed_variant!(VRngAssert, ThreadLocalCtxt, TlcFrame, ThreadLocalCtxt::new(), emit::runtime::AssertInternal<ScriptRng>, emit::runtime::AssertInternal(ScriptRng));
+typed_variant!(VRngDyn, ThreadLocalCtxt, TlcFrame, ThreadLocalCtxt::new(), Box<DynRng>, Box::new(ScriptRng) as Box<DynRng>);
+// the traceparent context around the thread-local one
+typed_variant!(
+    VTp,
+    emit_traceparent::TraceparentCtxt<ThreadLocalCtxt>,
+    emit_traceparent::TraceparentCtxtFrame<TlcFrame>,
+    emit_traceparent::TraceparentCtxt::new(ThreadLocalCtxt::new())
+);
 
 /// the type-erased runtime of an ambient slot: `emit::setup()…init_slot(&SLOT)`, then `SLOT.get()`
 pub struct VSlot;
@@ -128,7 +156,10 @@ impl Parts for VSlot {
     }
 }
 
-pub const VARIANTS: [&str; 10] = ["concrete", "assert", "ref", "box", "arc", "option", "boxdyn", "arcdyn", "assertdyn", "slot"];
+pub const VARIANTS: [&str; 17] = [
+    "concrete", "assert", "ref", "box", "arc", "option", "boxdyn", "arcdyn", "assertdyn", "slot", "rngsome", "rngnone", "rngbox", "rngarc",
+    "rngassert", "rngdyn", "tp",
+];
 
 static LOG: Mutex<Vec<String>> = Mutex::new(Vec::new());
 static DISABLED: LazyLock<Mutex<HashSet<u64>>> = LazyLock::new(|| Mutex::new(HashSet::new()));
@@ -138,7 +169,18 @@ pub struct ScriptRng;
 
 impl emit::Rng for ScriptRng {
     fn fill<A: AsMut<[u8]>>(&self, mut arr: A) -> Option<A> {
-        let (t, s) = *RNG_SCRIPT.lock().unwrap();
+        // a reading that was drawn is replaced by a different one: a span draws each of its two readings at most
+        // once, so only a holder (or a span) that draws twice ever sees the replacement
+        let (t, s) = {
+            let mut g = RNG_SCRIPT.lock().unwrap();
+            let cur = *g;
+            match arr.as_mut().len() {
+                16 => g.0 = g.0.map(|x| !x),
+                8 => g.1 = g.1.map(|x| !x),
+                _ => {}
+            }
+            cur
+        };
         {
             let buf = arr.as_mut();
             match buf.len() {
@@ -268,11 +310,16 @@ enum SKind {
     RSync(u8, Exit),
     /// the same on an async fn (two call sites)
     RAsync(u8, Exit),
+    /// the hand-rolled span API: `SpanCtxt::current` → `new_child` / `new_root` → `SpanCtxt::push` → body → `Span::new` event
+    Manual,
+    AManual,
+    /// the same with the child ctxt assembled by hand (`TraceId::random`, `Rng::fill`, `SpanId::new`, `SpanCtxt::new`)
+    Manual2,
 }
 
 impl SKind {
     fn is_async(self) -> bool {
-        matches!(self, SKind::Async | SKind::ANewSpan | SKind::ADirect | SKind::RAsync(..))
+        matches!(self, SKind::Async | SKind::ANewSpan | SKind::ADirect | SKind::RAsync(..) | SKind::AManual)
     }
     fn parse(a: &str) -> Option<SKind> {
         let exit = |e: &str| {
@@ -290,6 +337,9 @@ impl SKind {
             "async" => SKind::Async,
             "anewspan" => SKind::ANewSpan,
             "adirect" => SKind::ADirect,
+            "manual" => SKind::Manual,
+            "amanual" => SKind::AManual,
+            "manual2" => SKind::Manual2,
             _ => {
                 let (site, e) = a.split_once('.')?;
                 match site {
@@ -532,6 +582,51 @@ fn span_direct<P: Parts>(
     )
 }
 
+/// Runs its closure when dropped — at the end of the body, or while a panic unwinds through it.
+struct Defer<F: FnOnce()>(Option<F>);
+
+impl<F: FnOnce()> Drop for Defer<F> {
+    fn drop(&mut self) {
+        if let Some(f) = self.0.take() {
+            f()
+        }
+    }
+}
+
+/// The frame of a hand-rolled span, made where the span begins (inside the enclosing frames).
+fn manual_frame<P: Parts>(en: bool, by_hand: bool) -> Frame<&'static P::C> {
+    use std::num::{NonZeroU128, NonZeroU64};
+    let rt = P::rt();
+    if !en {
+        // a span the user decided not to record: a frame that adds nothing
+        return SpanCtxt::empty().push(rt.ctxt());
+    }
+    let cur = SpanCtxt::current(rt.ctxt());
+    let child = if by_hand {
+        let trace = match cur.trace_id() {
+            Some(t) => Some(emit::TraceId::new(NonZeroU128::new(t.to_u128()).expect("a trace id is never zero"))),
+            None => emit::TraceId::random(rt.rng()),
+        };
+        let span = emit::Rng::fill(rt.rng(), [0u8; 8]).map(u64::from_le_bytes).and_then(NonZeroU64::new).map(emit::SpanId::new);
+        SpanCtxt::new(trace, cur.span_id().copied(), span)
+    } else if cur == SpanCtxt::empty() {
+        SpanCtxt::new_root(rt.rng())
+    } else {
+        cur.new_child(rt.rng())
+    };
+    child.push(rt.ctxt())
+}
+
+/// The completion of a hand-rolled span: a `Span::new` event through the runtime, inside the frame. The node id
+/// travels as the event's own property (the frame of `SpanCtxt::push` holds the ids only).
+fn manual_done<P: Parts>(en: bool, id: u64) -> Defer<impl FnOnce()> {
+    Defer(Some(move || {
+        if en {
+            P::rt().emit(emit::span::Span::new(emit::Path::new_raw("c04"), "node", emit::Empty, ("id", id)));
+        }
+    }))
+}
+
 fn set_rng(rt: Option<u128>, rs: Option<u64>) {
     *RNG_SCRIPT.lock().unwrap() = (rt, rs);
 }
@@ -554,9 +649,17 @@ fn run_sync<P: Parts>(t: &T, actors: &Arc<Actors>) {
             let line = show_ids("c", Some(*cid), c.trace_id().copied(), c.span_parent().copied(), c.span_id().copied());
             LOG.lock().unwrap().push(line);
         }
-        T::Span { id, kind, rt: r_t, rs, user, children, .. } => {
+        T::Span { id, kind, en, rt: r_t, rs, user, children } => {
             set_rng(*r_t, *rs);
             match kind {
+                SKind::Manual | SKind::Manual2 => {
+                    let frame = manual_frame::<P>(*en, *kind == SKind::Manual2);
+                    let (id, en) = (*id, *en);
+                    frame.call(move || {
+                        let _done = manual_done::<P>(en, id);
+                        run_sync_list::<P>(children, actors);
+                    });
+                }
                 SKind::Sync => span_sync::<P>(rt, *id, children, actors),
                 SKind::RSync(site, exit) => {
                     let r = if *site == 0 { span_rsync::<P>(rt, *id, *exit, children, actors) } else { span_rsync2::<P>(rt, *id, *exit, children, actors) };
@@ -627,9 +730,20 @@ fn run_async_list<P: Parts>(ts: Arc<Vec<T>>, actors: Arc<Actors>) -> BoxFut {
                     }
                     .await
                 }
-                T::Span { id, kind, rt: r_t, rs, user, children, .. } if kind.is_async() => {
+                T::Span { id, kind, en, rt: r_t, rs, user, children } if kind.is_async() => {
                     set_rng(*r_t, *rs);
                     match kind {
+                        SKind::AManual => {
+                            let frame = manual_frame::<P>(*en, false);
+                            let body = run_async_list::<P>(children.clone(), actors.clone());
+                            let (id, en) = (*id, *en);
+                            frame
+                                .in_future(async move {
+                                    let _done = manual_done::<P>(en, id);
+                                    body.await;
+                                })
+                                .await
+                        }
                         SKind::Async => span_async::<P>(rt, *id, children.clone(), actors.clone()).await,
                         SKind::RAsync(site, exit) => {
                             let r = if *site == 0 {
@@ -713,32 +827,107 @@ fn run_c04(line: &str) -> String {
         if tag != "c04" {
             return None;
         }
-        // (c04 VARIANT (incoming ..) (T..)); the two-argument form is the concrete variant
+        // (c04 VARIANT (incoming ..) (T..)); the two-argument form is the concrete variant;
+        // (c04 tp (incoming) (T..) (header TRACE SPAN FLAGS push|push2)): the incoming ids arrive as a W3C traceparent
         let (variant, args) = match args.len() {
             2 => ("concrete", args),
-            3 => (args[0].as_atom()?, &args[1..]),
+            3 | 4 => (args[0].as_atom()?, &args[1..]),
             _ => return None,
         };
         let incoming = parse_props(&args[0], "incoming")?;
         let tree = parse_list(args[1].as_list()?, false)?;
+        let header = match args.get(2) {
+            None => None,
+            Some(h) => {
+                let (t, a) = h.as_tagged()?;
+                // a sampled traceparent with both ids, instead of (not on top of) incoming props, under `tp` only
+                if t != "header" || a.len() != 4 || variant != "tp" || !incoming.is_empty() {
+                    return None;
+                }
+                let (trace, span, flags) = (a[0].as_u128()?, a[1].as_u64()?, u8::try_from(a[2].as_u64()?).ok()?);
+                let via2 = match a[3].as_atom()? {
+                    "push" => false,
+                    "push2" => true,
+                    _ => return None,
+                };
+                if trace == 0 || span == 0 || flags % 2 == 0 {
+                    return None;
+                }
+                Some((trace, span, flags, via2))
+            }
+        };
+        if let Some((trace, span, ..)) = header {
+            // for the class check the header is what the equivalent incoming props would be
+            let as_props = vec![("trace_id".to_string(), IdVal::Trace(trace)), ("span_id".to_string(), IdVal::Span(span))];
+            if !tp_class(&as_props, &tree) {
+                return None;
+            }
+            return run_variant::<VTp>(incoming, tree, header);
+        }
         Some(match variant {
-            "concrete" => run_variant::<VConcrete>(incoming, tree)?,
-            "assert" => run_variant::<VAssert>(incoming, tree)?,
-            "ref" => run_variant::<VRef>(incoming, tree)?,
-            "box" => run_variant::<VBox>(incoming, tree)?,
-            "arc" => run_variant::<VArc>(incoming, tree)?,
-            "option" => run_variant::<VOption>(incoming, tree)?,
-            "boxdyn" => run_variant::<VBoxDyn>(incoming, tree)?,
-            "arcdyn" => run_variant::<VArcDyn>(incoming, tree)?,
-            "assertdyn" => run_variant::<VAssertDyn>(incoming, tree)?,
-            "slot" => run_variant::<VSlot>(incoming, tree)?,
+            "concrete" => run_variant::<VConcrete>(incoming, tree, None)?,
+            "assert" => run_variant::<VAssert>(incoming, tree, None)?,
+            "ref" => run_variant::<VRef>(incoming, tree, None)?,
+            "box" => run_variant::<VBox>(incoming, tree, None)?,
+            "arc" => run_variant::<VArc>(incoming, tree, None)?,
+            "option" => run_variant::<VOption>(incoming, tree, None)?,
+            "boxdyn" => run_variant::<VBoxDyn>(incoming, tree, None)?,
+            "arcdyn" => run_variant::<VArcDyn>(incoming, tree, None)?,
+            "assertdyn" => run_variant::<VAssertDyn>(incoming, tree, None)?,
+            "slot" => run_variant::<VSlot>(incoming, tree, None)?,
+            "rngsome" => run_variant::<VRngSome>(incoming, tree, None)?,
+            "rngnone" => run_variant::<VRngNone>(incoming, tree, None)?,
+            "rngbox" => run_variant::<VRngBox>(incoming, tree, None)?,
+            "rngarc" => run_variant::<VRngArc>(incoming, tree, None)?,
+            "rngassert" => run_variant::<VRngAssert>(incoming, tree, None)?,
+            "rngdyn" => run_variant::<VRngDyn>(incoming, tree, None)?,
+            "tp" if !tp_class(&incoming, &tree) => return None,
+            "tp" => run_variant::<VTp>(incoming, tree, None)?,
             _ => return None,
         })
     })()
     .unwrap_or_else(|| "bad-case".into())
 }
 
-fn run_variant<P: Parts>(incoming: PropList, tree: Arc<Vec<T>>) -> Option<String> {
+/// The cases on which `TraceparentCtxt<ThreadLocalCtxt>` shows the ids the plain context shows (the reasons are with
+/// `tpClass` in lean/EmitModel/Model/Span.lean): every span enabled, with valid rng readings and no user ctxt props;
+/// span ids pairwise distinct and distinct from the incoming one; incoming props without a usable span id, or with a
+/// usable trace id too and no `span_parent`.
+fn tp_class(incoming: &PropList, tree: &[T]) -> bool {
+    fn spans(ts: &[T], out: &mut Vec<u64>) -> bool {
+        ts.iter().all(|t| match t {
+            T::Span { en, rt, rs, user, children, .. } => {
+                let ok = *en && matches!(rt, Some(n) if *n != 0) && matches!(rs, Some(n) if *n != 0) && user.is_empty();
+                if let Some(n) = rs {
+                    out.push(*n);
+                }
+                ok && spans(children, out)
+            }
+            T::Hop(_, c) | T::Exec(_, c) | T::Catch(c) => spans(c, out),
+            T::Par(bs, _) => bs.iter().all(|b| spans(b, out)),
+            _ => true,
+        })
+    }
+    let mut ids = Vec::new();
+    if !spans(tree, &mut ids) {
+        return false;
+    }
+    let first = |k: &str| incoming.iter().find(|(key, _)| key == k).map(|(_, v)| Held::of(v).expect("validated"));
+    let inc_span = first("span_id").and_then(|h| h.value().cast::<emit::SpanId>());
+    if let Some(s) = inc_span {
+        ids.push(s.to_u64());
+        let trace_ok = first("trace_id").and_then(|h| h.value().cast::<emit::TraceId>()).is_some();
+        if !trace_ok || first("span_parent").is_some() {
+            return false;
+        }
+    }
+    let n = ids.len();
+    ids.sort();
+    ids.dedup();
+    ids.len() == n
+}
+
+fn run_variant<P: Parts>(incoming: PropList, tree: Arc<Vec<T>>, header: Option<(u128, u64, u8, bool)>) -> Option<String> {
     let mut verdicts = std::collections::HashMap::new();
     if !collect_verdicts(&tree, &mut verdicts) {
         return None;
@@ -752,7 +941,20 @@ fn run_variant<P: Parts>(incoming: PropList, tree: Arc<Vec<T>>) -> Option<String
         move |actors| {
             Box::new(move || {
                 let incoming = DynProps::of(&incoming);
-                Frame::push(P::rt().ctxt(), &incoming).call(|| run_sync_list::<P>(&tree, &actors));
+                let body = || Frame::push(P::rt().ctxt(), &incoming).call(|| run_sync_list::<P>(&tree, &actors));
+                match header {
+                    None => body(),
+                    // the request's `traceparent` header, pushed the way emit_traceparent documents it
+                    Some((trace, span, flags, via2)) => {
+                        use emit_traceparent::{TraceFlags, Traceparent, Tracestate};
+                        let tp = Traceparent::new(emit::TraceId::from_u128(trace), emit::SpanId::from_u64(span), TraceFlags::from_u8(flags));
+                        if via2 {
+                            emit_traceparent::push(tp, Tracestate::new_raw("")).call(body)
+                        } else {
+                            tp.push().call(body)
+                        }
+                    }
+                }
             })
         },
         |t| {
@@ -790,6 +992,8 @@ struct Gen<'a> {
     max_depth: usize,
     used_span: Vec<u64>,
     used_trace: Vec<u128>,
+    /// the case runs under `TraceparentCtxt`: stay inside `tp_class`
+    tp: bool,
 }
 
 fn idval(tag: &str, n: impl std::fmt::Display) -> Sexp {
@@ -803,6 +1007,16 @@ impl<'a> Gen<'a> {
     }
 
     fn span_reading(&mut self) -> Sexp {
+        if self.tp {
+            // valid and never repeated
+            loop {
+                let n = if self.rng.chance(1, 3) { self.rng.range(1, 60) } else { self.rng.next() | 1 };
+                if !self.used_span.contains(&n) {
+                    self.used_span.push(n);
+                    return Sexp::num(n);
+                }
+            }
+        }
         match self.rng.below(24) {
             0 => Sexp::atom("none"),
             1 => Sexp::num(0),
@@ -820,7 +1034,8 @@ impl<'a> Gen<'a> {
     }
 
     fn trace_reading(&mut self) -> Sexp {
-        match self.rng.below(16) {
+        let lo = if self.tp { 2 } else { 0 };
+        match lo + self.rng.below(16 - lo) {
             0 => Sexp::atom("none"),
             1 => Sexp::num(0),
             _ => {
@@ -837,6 +1052,10 @@ impl<'a> Gen<'a> {
 
     /// a value placed under an id key: the same id in its three forms, or something that is not an id
     fn id_value(&mut self, is_trace: bool) -> Sexp {
+        self.id_value_of(is_trace, false)
+    }
+
+    fn id_value_of(&mut self, is_trace: bool, well_formed: bool) -> Sexp {
         let n: u128 = if is_trace {
             match self.rng.below(3) {
                 0 => self.rng.range(1, 40) as u128,
@@ -848,8 +1067,11 @@ impl<'a> Gen<'a> {
                 _ => (self.rng.next() | 1) as u128,
             }
         };
+        if !is_trace {
+            self.used_span.push(n as u64);
+        }
         let hex = if is_trace { format!("{:032x}", n) } else { format!("{:016x}", n) };
-        match self.rng.below(14) {
+        match self.rng.below(if well_formed { 10 } else { 14 }) {
             0..=2 => idval(if is_trace { "trace" } else { "span" }, n),
             3..=5 => idval("num", n),
             6..=8 => Sexp::tagged("text", vec![Sexp::str(&hex)]),
@@ -893,6 +1115,49 @@ impl<'a> Gen<'a> {
         Sexp::tagged(tag, items)
     }
 
+    /// incoming props under `TraceparentCtxt`: nothing, ids without a usable span id (they pass through to the wrapped
+    /// context), or a whole traceparent (usable trace id and span id, no span_parent)
+    fn tp_incoming(&mut self) -> Sexp {
+        let mut items = Vec::new();
+        match self.rng.below(4) {
+            0 => {}
+            1 => {
+                items.push(Sexp::list(vec![Sexp::str("trace_id"), self.id_value(true)]));
+                if self.rng.bool() {
+                    items.push(Sexp::list(vec![Sexp::str("span_parent"), self.id_value(false)]));
+                }
+            }
+            _ => {
+                items.push(Sexp::list(vec![Sexp::str("trace_id"), self.id_value_of(true, true)]));
+                items.push(Sexp::list(vec![Sexp::str("span_id"), self.id_value_of(false, true)]));
+                if self.rng.bool() {
+                    items.swap(0, 1);
+                }
+            }
+        }
+        if self.rng.chance(1, 4) {
+            items.push(Sexp::list(vec![Sexp::str("user"), idval("num", self.rng.below(10))]));
+        }
+        Sexp::tagged("incoming", items)
+    }
+
+    /// an async span polled on several threads that suspends at least twice, with children after a suspension
+    fn suspended_span(&mut self) -> Sexp {
+        let nt = 1 + self.rng.usize(3);
+        let threads = (0..nt).map(|_| Sexp::num(self.rng.below(NTHREADS as u64))).collect();
+        let id = self.fresh();
+        let kind = *self.rng.pick(&["async", "async", "anewspan", "amanual", "amanual", "rasync.ok", "rasync2.errq", "adirect"]);
+        let (rt, rs) = (self.trace_reading(), self.span_reading());
+        let y = || Sexp::tagged("yield", vec![]);
+        let mut children = vec![Sexp::tagged("event", vec![Sexp::num(self.fresh()), Sexp::tagged("props", vec![])]), y(), Sexp::tagged("cur", vec![Sexp::num(self.fresh())]), y()];
+        children.extend(self.list(2, true, 3, false, false).0);
+        children.push(y());
+        children.push(Sexp::tagged("cur", vec![Sexp::num(self.fresh())]));
+        self.budget -= 4;
+        let span = Sexp::tagged("span", [vec![Sexp::num(id), Sexp::atom(kind), Sexp::bool(true), rt, rs, Sexp::tagged("props", vec![])], children].concat());
+        Sexp::tagged("exec", vec![Sexp::tagged("threads", threads), span])
+    }
+
     /// A body. `in_catch`: a catch point encloses it (panics welcome); `no_panic`: below a `par` branch.
     /// Returns (items, whether the body panics) — nothing is generated after a panicking item.
     fn list(&mut self, depth: usize, in_async: bool, fanout: usize, in_catch: bool, no_panic: bool) -> (Vec<Sexp>, bool) {
@@ -915,7 +1180,7 @@ impl<'a> Gen<'a> {
                     let id = self.fresh();
                     let exit = *self.rng.pick(&["ok", "errq", "errret"]);
                     let kind: String = if in_async {
-                        match self.rng.below(11) {
+                        match self.rng.below(14) {
                             0 | 1 => "async".into(),
                             2 => "anewspan".into(),
                             3 => "adirect".into(),
@@ -925,10 +1190,14 @@ impl<'a> Gen<'a> {
                             7 => format!("rasync.{}", exit),
                             8 => format!("rasync2.{}", exit),
                             9 => format!("rsync.{}", exit),
-                            _ => format!("rsync2.{}", exit),
+                            10 => format!("rsync2.{}", exit),
+                            11 | 12 => "amanual".into(),
+                            _ => (*self.rng.pick(&["manual", "manual2"])).into(),
                         }
                     } else {
-                        match self.rng.below(7) {
+                        match self.rng.below(9) {
+                            7 => "manual".into(),
+                            8 => "manual2".into(),
                             0 | 1 => "sync".into(),
                             2 => "newspan".into(),
                             3 => "direct".into(),
@@ -937,10 +1206,10 @@ impl<'a> Gen<'a> {
                         }
                     };
                     let kind = kind.as_str();
-                    let child_async = matches!(kind, "async" | "anewspan" | "adirect") || kind.starts_with("rasync");
-                    let en = Sexp::bool(!self.rng.chance(1, 4));
+                    let child_async = matches!(kind, "async" | "anewspan" | "adirect" | "amanual") || kind.starts_with("rasync");
+                    let en = Sexp::bool(self.tp || !self.rng.chance(1, 4));
                     let (rt, rs) = (self.trace_reading(), self.span_reading());
-                    let user = if matches!(kind, "direct" | "adirect") { self.id_props("props", 2) } else { Sexp::tagged("props", vec![]) };
+                    let user = if matches!(kind, "direct" | "adirect") && !self.tp { self.id_props("props", 2) } else { Sexp::tagged("props", vec![]) };
                     let (children, cp) = self.list(depth + 1, child_async, 4, in_catch, no_panic);
                     p = cp;
                     Sexp::tagged("span", [vec![Sexp::num(id), Sexp::atom(kind), en, rt, rs, user], children].concat())
@@ -991,9 +1260,36 @@ fn gen_c04(rng: &mut Rng, tier: Tier, n: usize) -> Vec<String> {
     let mut out = Vec::with_capacity(n);
     for _ in 0..n {
         let budget = if tier == Tier::Thorough { 15 + rng.below(60) as i64 } else { 6 + rng.below(30) as i64 };
-        let mut g = Gen { rng: &mut *rng, next_id: 0, budget, max_depth: 6, used_span: Vec::new(), used_trace: Vec::new() };
-        let incoming = g.id_props("incoming", 5);
+        let variant = if rng.chance(1, 4) { "concrete" } else { *rng.pick(&VARIANTS) };
+        let tp = variant == "tp";
+        let mut g = Gen { rng: &mut *rng, next_id: 0, budget, max_depth: 6, used_span: Vec::new(), used_trace: Vec::new(), tp };
+        // under `tp` one case in three receives its incoming ids as a sampled W3C traceparent (any odd flags byte)
+        let header = if tp && g.rng.chance(1, 3) {
+            let trace = ((g.rng.next() as u128) << 64) | (g.rng.next() as u128) | 1;
+            let span = g.rng.next() | 1;
+            g.used_span.push(span);
+            let flags = match g.rng.below(4) {
+                0 => 1,
+                1 => 3,
+                2 => 0xff,
+                _ => g.rng.below(128) * 2 + 1,
+            };
+            Some(Sexp::tagged("header", vec![Sexp::num(trace), Sexp::num(span), Sexp::num(flags), Sexp::atom(if g.rng.bool() { "push" } else { "push2" })]))
+        } else {
+            None
+        };
+        let incoming = if header.is_some() {
+            Sexp::tagged("incoming", vec![])
+        } else if tp {
+            g.tp_incoming()
+        } else {
+            g.id_props("incoming", 5)
+        };
         let mut items = Vec::new();
+        // under the traceparent context (and now and then elsewhere): repeated polls of one span on changing threads
+        if tp || g.rng.chance(1, 10) {
+            items.push(g.suspended_span());
+        }
         while g.budget > 0 {
             let (b, p) = g.list(0, false, 4, false, false);
             items.extend(b);
@@ -1001,8 +1297,11 @@ fn gen_c04(rng: &mut Rng, tier: Tier, n: usize) -> Vec<String> {
                 break;
             }
         }
-        let variant = if rng.chance(1, 4) { "concrete" } else { *rng.pick(&VARIANTS) };
-        out.push(Sexp::tagged("c04", vec![Sexp::atom(variant), incoming, Sexp::list(items)]).to_string());
+        let mut top = vec![Sexp::atom(variant), incoming, Sexp::list(items)];
+        if let Some(h) = header {
+            top.push(h);
+        }
+        out.push(Sexp::tagged("c04", top).to_string());
     }
     out
 }
